@@ -490,9 +490,11 @@ Definition st_principal : state :=
   mkst (fun i => nth i [mkobj SCreated 1 None []; mkobj SCreated 1 None [0]] no_obj) 2 [0; 1] [] true [].
 
 Lemma obj_flush_principal_refuted :
-  exists s', obj_flush no_hooks 10 1 st_principal = Some s' /\
-             log s' = [EB KIns 1; ES KIns 0; ES KIns 1; EA KIns 0; EA KIns 1] /\ phase (log s') 0 = Bad.
-Proof. eexists. split; [vm_compute; reflexivity|]. split; reflexivity. Qed.
+  match obj_flush no_hooks 10 1 st_principal with
+  | Some s' => log s' = [EB KIns 1; ES KIns 0; ES KIns 1; EA KIns 0; EA KIns 1] /\ phase (log s') 0 = Bad
+  | None => False
+  end.
+Proof. vm_compute. split; reflexivity. Qed.
 
 Lemma st_principal_R : R st_principal.
 Proof.
